@@ -1,6 +1,7 @@
 /- Model/C18Gen.lean — the C18 model instantiated with the facts the translator extracted. -/
 import PsutilModel.Model.C18
 import PsutilModel.Model.C18Who
+import PsutilModel.Model.C18Num
 import PsutilModel.Generated.C18
 namespace Psutil.C18
 
@@ -43,5 +44,9 @@ def routing : Routing :=
     affSet := Addr.ofCode Gen.C18.addrAffinitySet
     rlimitGet := Addr.ofCode Gen.C18.addrRlimitGet
     rlimitSet := Addr.ofCode Gen.C18.addrRlimitSet }
+
+/-- width of the signed C integer the native affinity setter holds a CPU number in, as extracted
+    from the current source (Model/C18Num.lean) -/
+def cpuNumBits : Nat := Gen.C18.affinitySetCpuBits
 
 end Psutil.C18
